@@ -127,6 +127,13 @@ func tryReplay(opts *RunOpts, w *World, q *Oblig) *ReplayOutcome {
 	if q.replayFn != nil {
 		return q.replayFn(q)
 	}
+	if q.ctx != nil && q.ctx.con != nil {
+		if _, ok := q.ctx.con.option("e2e"); ok {
+			if out := e2eReplay(opts, w, q); out != nil {
+				return out
+			}
+		}
+	}
 	return unitReplay(opts, w, q)
 }
 
